@@ -539,7 +539,7 @@ class Midline(
 
         self.ext.load_patient_data(patient_data[has_extension], mapping)
 
-        if self.marginalize_unknown and is_unknown.sum() > 0:
+        if self.marginalize_unknown:
             self.unknown.load_patient_data(patient_data[is_unknown], mapping)
         elif is_unknown.sum() > 0:
             warnings.warn(
